@@ -124,9 +124,11 @@ PROPS = {
                      "MRL.C08G.negative_example", "MRL.C08G.negative_violates",
                      "MRL.C08.recover_sorted", "MRL.C08.recover_sorted'", "MRL.C08.replay_records_subset", "MRL.C08.replay_is_fold",
                      "MRL.C08.recover_records_subset", "MRL.C12.assemble_whole_entry",
-                     "MRL.C08V.C08_recover_genuine", "MRL.C08X.C08_crash_genuine_partial", "MRL.C08X.C08_crash_restart_partial"],
+                     "MRL.C08V.C08_recover_genuine", "MRL.C08X.C08_crash_genuine_partial", "MRL.C08X.C08_crash_restart_partial",
+                     "MRL.C08X.C08_crash_genuine", "MRL.C08X.C08_crash_restart", "MRL.C08X.C08_crash_genuine_reachX", "MRL.C08X.C08_crash_restart_reachX",
+                     "MRL.C02W.reachXW_journal", "MRL.C02W.ReachXW.toReachX", "MRL.C02W.ReachXW.ofReachX"],
         "examples": 5,
-        "modules": ["MRL.Props.C08", "MRL.Props.C12", "MRL.Props.C08Genuine", "MRL.Props.C08Recover", "MRL.Props.C08Crash"],
+        "modules": ["MRL.Props.C08", "MRL.Props.C12", "MRL.Props.C08Genuine", "MRL.Props.C08Recover", "MRL.Props.C08Crash", "MRL.Props.C08CrashFull"],
         "kinds": "ODSN",
         "campaigns": {"quick": [("damage", 16, 70), ("bytes", 12, 120)], "thorough": [("damage", 200, 120), ("damage-aimed", 60, 100), ("bytes", 150, 250)]},
         "rule": "damage campaign: final image of a history (with delete/re-create, GC) + 10-20 damage variants each: aimed at crc/payload of "
@@ -155,9 +157,10 @@ PROPS = {
                      "MRL.C11.ioCalls_bounded", "MRL.C08.recover_sorted",
                      "MRL.C10A.writeEntry_asserts", "MRL.C10A.recover_asserts", "MRL.C10A.decode_name_lt", "MRL.C10A.step_off_le", "MRL.C10A.oversize_assert_fires",
                      "MRL.C10V.recoverC_asserts", "MRL.C10V.recoverC_no_panic", "MRL.C10V.clipImage_noOversize", "MRL.C10V.clipImage_id",
-                     "MRL.C10V.recoverC_eq_recover"],
+                     "MRL.C10V.recoverC_eq_recover", "MRL.C10V.reach_noOversize", "MRL.C10V.reachD_noOversize", "MRL.C10V.crash_noOversize",
+                     "MRL.C10V.crash2_noOversize", "MRL.C10V.recoverC_reach", "MRL.C10V.recoverC_reachD", "MRL.C10V.recoverC_crash", "MRL.C10V.recoverC_crash2"],
         "examples": 3,
-        "modules": ["MRL.Props.C10", "MRL.Props.C11", "MRL.Props.C08", "MRL.Props.C10Asserts", "MRL.Props.C10Oversize"],
+        "modules": ["MRL.Props.C10", "MRL.Props.C11", "MRL.Props.C08", "MRL.Props.C10Asserts", "MRL.Props.C10Oversize", "MRL.Props.C10Reach"],
         "kinds": "ODSNK",
         "campaigns": {"quick": [("damage", 12, 70), ("bytes", 16, 120), ("edge", 4, 0), ("oversize", 8, 0)],
                       "thorough": [("damage", 200, 120), ("bytes", 300, 300), ("names", 60, 100), ("edge", 32, 0), ("oversize", 96, 0)]},
